@@ -41,12 +41,18 @@ KINDS = [k for k in gp.ALL_KINDS if k not in ('package_fn',)] + ['dump_to_path',
 EXC = ['ValueError', 'KeyError', 'Custom', 'AssertionError', 'ts.CastError', 'dp.CastError', 'ts.UniqueKeyError', 'df.ValidationError',
        'ts.ValidationError', 'dp.ValidationError', 'ts.SourceError', 'OSError', 'StopIteration',
        # classes the table reader treats specially (UnicodeError -> its EncodingError, others -> its SourceError)
-       'UnicodeDecodeError', 'tab.SourceError', 'tab.EncodingError', 'RuntimeError']
+       'UnicodeDecodeError', 'tab.SourceError', 'tab.EncodingError', 'RuntimeError',
+       # the library's own exception family, raised by user code (a subclass of its base class; its SourceLoadError)
+       'df.DataflowsException-subclass', 'df.SourceLoadError']
 ARTEFACT_KINDS = ('dump_to_path', 'dump_to_zip', 'stream_file', 'checkpoint')
 
 
 class Custom(Exception):
     pass
+
+
+class UserPipelineError(dataflows.exceptions.DataflowsException):
+    """A user's exception class derived from the library's base exception."""
 
 
 def make_exc(name):
@@ -84,6 +90,10 @@ def make_exc(name):
         return tabulator.exceptions.EncodingError('injected')
     if name == 'RuntimeError':
         return RuntimeError('injected')
+    if name == 'df.DataflowsException-subclass':
+        return UserPipelineError('injected')
+    if name == 'df.SourceLoadError':
+        return dataflows.exceptions.SourceLoadError('injected')
     return dataflows.ValidationError('res', {'a': 1}, 0, None)
 
 
@@ -295,13 +305,69 @@ def run_with_fault(case, ctx, mode, build_fault, at, label, compose=None):
     return True, n_after
 
 
+DATA_FAULTS = ['join-target-row-without-key', 'join-source-row-without-key', 'sort_rows-row-without-key',
+               'computed-format-row-without-field']
+
+
+def run_data_fault(ctx, kind, mode, join_mode, at_row):
+    """A built-in step that cannot do its work on one particular row (the row lacks the field the step needs): the step
+    raises, so the run must fail - it must not quietly treat the row as 'no match' / skip it - and the dump behind it must
+    not be committed."""
+    src = [{'k': i % 3, 'v': 10 + i} for i in range(4)]
+    tgt = [{'k': i % 3, 'w': 'w%d' % i} for i in range(4)]
+    desc = gen.descriptor_of([{'name': 'src', 'fields': [{'name': 'k', 'type': 'integer'}, {'name': 'v', 'type': 'integer'}], 'rows': src},
+                              {'name': 'tgt', 'fields': [{'name': 'k', 'type': 'integer'}, {'name': 'w', 'type': 'string'}], 'rows': tgt}])
+    victim = 'src' if kind == 'join-source-row-without-key' else 'tgt'
+    hit = {'n': 0}
+
+    def drop_key(package):
+        yield package.pkg
+        for res in package:
+            if res.res.name != victim:
+                yield res
+            else:
+                def it(res=res):
+                    for i, row in enumerate(res):
+                        if i == at_row:
+                            row = dict(row)
+                            del row['k']
+                            hit['n'] += 1
+                        yield row
+                yield it()
+    d = dataflows
+    if kind.startswith('join'):
+        step = d.join('src', ['k'], 'tgt', ['k'], fields={'v': {'aggregate': 'sum'}}, mode=join_mode)
+    elif kind.startswith('sort_rows'):
+        step = d.sort_rows('{k}', resources='tgt')
+    else:
+        step = d.add_computed_field(target='lbl', operation='format', with_='{k}-{w}', resources='tgt')
+    out_dir = os.path.join(ctx.tmpdir(), 'dump')
+    err = None
+    try:
+        with quiet():
+            flow = Flow(FeedStep(desc, [src, tgt]), drop_key, step, d.dump_to_path(out_dir))
+            flow.process() if mode == 'process' else flow.results()
+    except Exception as e:
+        err = e
+    label = {'fault': kind, 'mode': mode, 'join_mode': join_mode, 'row': at_row}
+    if not hit['n']:
+        return False
+    if err is None:
+        raise Violation('run-returned-normally-although-a-step-could-not-process-a-row:%s' % kind, label)
+    if not isinstance(err, ProcessorError):
+        raise Violation('not-a-ProcessorError:%s' % type(err).__name__, dict(label, error=str(err)[:200]))
+    if os.path.exists(os.path.join(out_dir, 'datapackage.json')):
+        raise Violation('artefact-committed-after-failure:dump_to_path', label)
+    return True
+
+
 def check(case, ctx):
     specs = case['steps']
     n = len(specs)
     prog = [s['k'] for s in specs]
     subkeys = []
     fired_n = runs = 0
-    excs = case['exc_seed']
+    excs = list(case['exc_seed']) + ['df.DataflowsException-subclass', 'df.SourceLoadError']
     ei = 0
     # ---- (i) inserted failing step: all positions x phases
     for at in range(0, n + 1):
@@ -383,6 +449,13 @@ def check(case, ctx):
             if fired:
                 fired_n += 1
                 subkeys.append('p%d%s%d%s' % (px['row'], px['exc'], px['N'], mode))
+    # ---- (v) built-in steps that cannot process one particular row
+    for ki, kind in enumerate(DATA_FAULTS):
+        jm = ('inner', 'half-outer', 'full-outer')[(case['res_pick'] + ki) % 3]
+        if run_data_fault(ctx, kind, ('process', 'results')[ki % 2], jm, (case['res_pick'] + ki) % 4):
+            runs += 1
+            fired_n += 1
+            subkeys.append('d%s%s%d' % (kind, jm, (case['res_pick'] + ki) % 4))
     classes = ['len=%d' % n] + sorted({'k:' + k for k in prog if k in ARTEFACT_KINDS})
     return Info(nontrivial=len(subkeys) >= 1, classes=classes, evals=runs, subkeys=subkeys,
                 extra={'fault_runs': runs, 'fault_runs_where_the_fault_fired': fired_n,
